@@ -25,6 +25,24 @@ def parseCfg (t : String) : Option Cfg :=
     pure (mkCfg cs win alt)
   | _ => none
 
+/-- nested `join` arguments: `[` opens a list/tuple, `]` closes it, `~` is `None`, anything else an
+    encoded string -/
+def parseJArgs (toks : List String) : Option (List JArg) :=
+  let rec go (toks : List String) (stack : List (List JArg)) (cur : List JArg) : Option (List JArg) :=
+    match toks with
+    | [] => if stack.isEmpty then some cur.reverse else none
+    | t :: ts =>
+      if t == "[" then go ts (cur :: stack) []
+      else if t == "]" then
+        match stack with
+        | [] => none
+        | top :: rest => go ts rest (JArg.seq cur.reverse :: top)
+      else if t == "~" then go ts stack (JArg.none :: cur)
+      else match decStr t with
+        | some s => go ts stack (JArg.str s :: cur)
+        | none => none
+  go toks [] []
+
 def step (toks : List String) : String :=
   match toks with
   | cfgT :: op :: args =>
@@ -45,6 +63,13 @@ def step (toks : List String) : String :=
       | "issub", [f, t, st] => (match decStr f, decStr t, decBool st with
           | some f, some t, some st => encSub (isSubpath c f t st)
           | _, _, _ => "bad-arg")
+      | "issubopt", [f, t, st] => (match decOptStr f, decOptStr t, decBool st with
+          | some f, some t, some st => encSub (isSubpathOpt c f t st)
+          | _, _, _ => "bad-arg")
+      | "issubroot", [r, t, st] => (match decOptStr r, decOptStr t, decBool st with
+          | some r, some t, some st => encSub (isSubpathOfRoot c r t st)
+          | _, _, _ => "bad-arg")
+      | "joinn", as => (match parseJArgs as with | some l => encStr (joinArgs c l) | none => "bad-arg")
       | "replace", [p, f, t] => (match decStr p, decStr f, decStr t with
           | some p, some f, some t => encExc encStr (replacePath c p f t)
           | _, _, _ => "bad-arg")
